@@ -5,7 +5,8 @@ From Coq Require Import NArith ZArith List Bool Lia.
 Import ListNotations.
 From PV Require Import Yanny.Bytes Yanny.BytesFacts Yanny.Types Yanny.Parse Yanny.Render
   Yanny.TokenFacts Yanny.RowFacts Yanny.TypeFacts Yanny.DocFacts Yanny.LayoutFacts Yanny.ScanFacts Yanny.FileFacts
-  Yanny.RoundTrip Yanny.LayoutFile Yanny.LayoutRow Yanny.LayoutFile2 Yanny.Interleave C02.Model.
+  Yanny.RoundTrip Yanny.LayoutFile Yanny.LayoutRow Yanny.LayoutFile2 Yanny.Interleave
+  Yanny.TypedefLayout Yanny.Skeleton Yanny.StructLayout C02.Model.
 Open Scope N_scope.
 
 (* a data line of a well-formed table means the same under any letter case of the table name *)
@@ -67,4 +68,61 @@ Qed.
 
 Lemma example_reads_as_the_document :
   match sem ex_doc with Some p => parse (items_text ex_items) = Some p | None => False end.
+Proof. vm_compute. reflexivity. Qed.
+
+
+(* ---- non-vacuity of the skeleton theorem: the data row stands BEFORE the typedef of its table, the keyword pair after
+   the row; the typedef block has a comment line before the first declaration, a trailing comment, two blanks / a tab
+   between type and name, the string length in angle brackets, and a lower-case trailing name:
+
+       <tab>t  "5" { a b} # note
+       k v
+       typedef struct {
+       # cols
+         int  x; # x
+       char<tab>s<4>;
+       } t;
+   ---- *)
+Definition ex2_ys : list clay :=
+  [ mkclay [SP; SP] [] [SP] [(bs "#"%string, [SP]); (bs "x"%string, [NL])];
+    mkclay [TAB] (bs "<4>"%string) [NL] [] ].
+Definition ex2_body : bytes := lbody [NL] [(bs "#"%string, [SP]); (bs "cols"%string, [NL; SP; SP])] (t_cols ex_table) [S_INT; S_CHAR] ex2_ys.
+Definition ex2_name : bytes := bs "t"%string.
+Definition ex2_skel : list sk :=
+  [ SkRow (ex_table, [Sc (SInt 5); Sc (STok (bs "a b"%string))]); SkPair (bs "k"%string, bs "v"%string); SkStruct ex2_body ex2_name ].
+Definition ex2_items : list item :=
+  [ ILine ex_row; ILine (pair_line (bs "k"%string, bs "v"%string)); ITd KW_STRUCT ex2_body ex2_name ].
+
+Lemma example2_typedef : td_reads (d_enums ex_doc) ex_table ex2_body ex2_name.
+Proof.
+  unfold ex2_body. apply lbody_td_reads; try reflexivity; try discriminate. exact (Forall_inv example_tws_ok).
+Qed.
+
+Lemma example2_skeleton : skel_ok ex_doc ex_tws ex2_skel.
+Proof.
+  split; [reflexivity|]. split; [|split; [|reflexivity]].
+  - split.
+    + constructor; [|constructor]. split; [now left|now left].
+    + intros t [<-|[]]. reflexivity.
+  - constructor; [exact example2_typedef|constructor].
+Qed.
+
+Lemma example2_layout : idec (sy_of (d_enums ex_doc) ex_tws) ex2_items (map sk_item ex2_skel).
+Proof.
+  unfold ex2_items, ex2_skel. cbn [map sk_item].
+  change (tr_line (ex_table, [Sc (SInt 5); Sc (STok (bs "a b"%string))]))
+    with (render_row_line (upper (bs "t"%string))
+            (map (fun gc : bytes * lcell => cell_of (snd gc))
+               [([SP; SP], LSc (SInt 5) FQuoted); ([SP], LSc (STok (bs "a b"%string)) (FBraced [SP]))])).
+  unfold ex_row.
+  eapply (id_row _ [TAB] (bs "t"%string) _ _ [SP] (Some (bs " note"%string))); try reflexivity; try discriminate.
+  - split; reflexivity.
+  - repeat apply id_same. constructor.
+Qed.
+
+Lemma example2_reads_as_the_document :
+  match sem ex_doc with
+  | Some p => parse (items_text ex2_items) = Some (with_structs p [td_text KW_STRUCT ex2_body ex2_name])
+  | None => False
+  end.
 Proof. vm_compute. reflexivity. Qed.
